@@ -53,13 +53,22 @@ func Simulate(c *core.Ctx, cfgText string, total, workers int, name string) ([]B
 		go func(w int) {
 			defer wg.Done()
 			outp := filepath.Join(c.Work, fmt.Sprintf("sim-%s-%d.csv", name, w))
-			res, err := tlc.Run(tlc.Opts{ // no retry: the export file is appended to
-				SpecDirs: []string{specDir(c)}, Module: "ConcSim", Config: "sim.cfg",
-				Files:   map[string]string{"sim.cfg": cfgText},
-				Workers: 1, Timeout: 8 * time.Minute, HeapMB: 2000, Scratch: c.Work,
-				Env:   map[string]string{"VERIF_OUT": outp},
-				Extra: []string{"-simulate", fmt.Sprintf("num=%d", per), "-depth", "400", "-seed", fmt.Sprint(c.Seed*1000 + int64(w) + 1)},
-			})
+			var res *tlc.Result
+			var err error
+			for attempt := 0; attempt < 2; attempt++ { // a JVM was seen to hang under load: one retry, export file reset
+				os.Remove(outp)
+				res, err = tlc.Run(tlc.Opts{
+					SpecDirs: []string{specDir(c)}, Module: "ConcSim", Config: "sim.cfg",
+					Files:   map[string]string{"sim.cfg": cfgText},
+					Workers: 1, Timeout: 6 * time.Minute, HeapMB: 2000, Scratch: c.Work,
+					Env:   map[string]string{"VERIF_OUT": outp},
+					Extra: []string{"-simulate", fmt.Sprintf("num=%d", per), "-depth", "400", "-seed", fmt.Sprint(c.Seed*1000 + int64(w) + 1)},
+				})
+				if err == nil || !strings.Contains(err.Error(), "timed out") {
+					break
+				}
+				c.Warn("TLC ConcSim timed out, retrying once")
+			}
 			if err == nil && res.Violation {
 				err = fmt.Errorf("ConcSim reported a violation: %s", res.ErrText)
 			}
